@@ -487,8 +487,9 @@ def _exits(stmts: List[ast.stmt], is_release, count: int, depth: int) -> List[Tu
                         new_live.append((e[0], None))
                     else:
                         out.append(e)
-                if not st.orelse:
-                    pass
+                # a `break` inside skips the else clause
+                if st.orelse and any(e[1] == "break" for e in inner):
+                    new_live.append((c, None))
             elif isinstance(st, ast.Try):
                 alts = [st.body + st.orelse] + [h.body for h in st.handlers]
                 for alt in alts:
